@@ -265,7 +265,7 @@ EXT = {
            "(resistances renumbered) and with a link attribute (link-weighted path family) before and after the permutation.",
     "C05": " Added: shuffled-edge igraph / edge-list paths, copies of non-matrix networks, signed attribute values, save-change-save "
            "histories, GeoNetwork / SpatialNetwork save-Load, total / mean weight consistency on every path."
-           ' Third round: sparse input with explicitly stored zeros; a copy that is edited afterwards leaves the original unchanged.',
+           ' Third round: sparse input with explicitly stored zeros; a copy that is edited afterwards leaves the original unchanged; ClimateNetwork save / Load.',
     "C06": " Added: input digests taken before construction, dtype / order variants of every caller array, a second object from the "
            "same arrays, function targets, NoStaleHit by shadow re-evaluation, targets EventSeries, Havlin, Hilbert, partial "
            "correlation, CoupledClimateNetwork, EventSeriesClimateNetwork, disconnected and interacting networks, data flagged as "
